@@ -60,6 +60,19 @@ func c09Generated(c *run.Ctx) int {
 				c.Violation("c09-generated", ec.replay(kind, ec.DC.OpName, map[string]interface{}{"history_vars_parse_once": trace, "diff": diff, "expected": exp.Describe(), "observed": out.Describe()}))
 				break
 			}
+			if len(out.Calls) > 1 && !ec.DC.Feats["dup-key"] {
+				// the same assignment once more with one resolver failing: an error somewhere in a selection set decides
+				// nothing about the selections next to it - what carries @include(true) / @skip(false) is still there
+				cl := out.Calls[1+r.Intn(len(out.Calls)-1)]
+				plan := model.FaultPlan{cl.Key: model.Fault{Kind: "error"}}
+				exp2 := ref.Execute(ec.S, ec.DC.Doc, ec.DC.OpName, vars, ec.G, plan, ref.Flags{})
+				out2 := Do(h, Request{Exe: exe, OpName: ec.DC.OpName, Vars: vars}, plan)
+				c.Count("generated_resolve_calls_with_a_failing_resolver", 1)
+				if diff := Compare(exp2, out2, CompareOpts{StripFragSeg: true}); diff != "" { // error paths are C06's subject
+					c.Violation("c09-generated", ec.replay(kind, ec.DC.OpName, map[string]interface{}{"history_vars_parse_once": trace, "fault": fmt.Sprint(plan), "diff": diff, "expected": exp2.Describe(), "observed": out2.Describe()}))
+					break
+				}
+			}
 		}
 		if i < 2 {
 			c.Sample(map[string]interface{}{"document": ec.Text, "backend": kind, "history_vars_parse_once": trace})
